@@ -9,7 +9,10 @@ Steps per source file
      `case ABT_POOL_ACCESS_*:` labels it sits under (none = all access modes).
   2. AST of each installed function: every call to thread_queue_*, the stack of enclosing
      if-conditions that test the `context` parameter (mask evaluated from the macro-expanded constant
-     expression in the AST), whether it is lexically inside a loop.
+     expression in the AST), whether it is lexically inside a loop, and whether the pool's lock is held at the call:
+     a flow walk in source order in which ABTD_spinlock_acquire / pthread_mutex_lock take it, ABTD_spinlock_release /
+     pthread_mutex_unlock drop it, and the branch of an `if` guarded by
+     `thread_queue_acquire_spinlock_if_not_empty(..) == 0` holds it (after an if: held only if held on both paths).
   3. the #define'd masks local to the file are also compiled (constgen style: a C program that
      #includes the .c file and prints them) and cross-checked against the AST-evaluated masks.
 Anything not understood (a use of `context` that is not a recognised test, an unknown slot function, a
@@ -28,6 +31,9 @@ SLOTS = [("push", "p_push"), ("pop", "p_pop"), ("popWait", "p_pop_wait"), ("push
 CALLS = {"thread_queue_push_head": "pushHead", "thread_queue_push_tail": "pushTail",
          "thread_queue_pop_head": "popHead", "thread_queue_pop_tail": "popTail",
          "thread_queue_remove": "remove"}
+LOCK_ACQ = {"ABTD_spinlock_acquire", "pthread_mutex_lock"}
+LOCK_REL = {"ABTD_spinlock_release", "pthread_mutex_unlock"}
+LOCK_TRY = "thread_queue_acquire_spinlock_if_not_empty"     # returns 0 iff the lock was taken
 
 
 class Unsupported(Exception):
@@ -141,13 +147,47 @@ def ctx_test(n, ctxname):
     raise Unsupported("condition on `%s` of an unrecognised form (%s %s)" % (ctxname, k, n.get("opcode", "")))
 
 
+def calls_fn(n, name):
+    if n.get("kind") == "CallExpr" and n.get("inner") and refname(n["inner"][0]) == name:
+        return True
+    return any(calls_fn(c, name) for c in n.get("inner", []) if c)
+
+
+def try_polarity(cond, fname):
+    """the condition of an if contains a call of LOCK_TRY: True = the then-branch runs with the lock held,
+    False = the else-branch does.  Recognised: `try == 0`, `0 == try`, `try != 0`, `try`, `!try`, and `A && <that>`."""
+    n = strip(cond)
+    k = n.get("kind")
+    if k == "BinaryOperator" and n.get("opcode") == "&&":
+        a, b = n["inner"]
+        if calls_fn(a, LOCK_TRY) and not calls_fn(b, LOCK_TRY):
+            a, b = b, a
+        if calls_fn(a, LOCK_TRY):
+            raise Unsupported("lock fast path on both sides of && in " + fname)
+        if try_polarity(b, fname) is not True:
+            raise Unsupported("`A && (lock not taken)` in " + fname)
+        return True
+    if k == "BinaryOperator" and n.get("opcode") in ("==", "!="):
+        a, b = n["inner"]
+        for x, y in ((a, b), (b, a)):
+            ys = strip(y)
+            if ys.get("kind") == "IntegerLiteral" and int(ys["value"]) == 0 and strip(x).get("kind") == "CallExpr":
+                return n["opcode"] == "=="
+    if k == "UnaryOperator" and n.get("opcode") == "!" and strip(n["inner"][0]).get("kind") == "CallExpr":
+        return True
+    if k == "CallExpr":
+        return False
+    raise Unsupported("condition around %s of an unrecognised form in %s" % (LOCK_TRY, fname))
+
+
 def analyse(fn):
-    """-> (sites, guards) of one pool function"""
+    """-> (sites, guards) of one pool function; a site is (conds, call, in_loop, lock_held)"""
     ctxname = None
     for p in fn.get("inner", []):
         if p.get("kind") == "ParmVarDecl" and "ABT_pool_context" in p.get("type", {}).get("qualType", ""):
             ctxname = p.get("name")
     sites, guards = [], []
+    st = {"held": False}
 
     def walk(n, conds, loop):
         k = n.get("kind")
@@ -156,14 +196,29 @@ def analyse(fn):
             if k == "IfStmt" and (n.get("hasInit") or n.get("hasVar")):
                 raise Unsupported("if with init/var in " + fn["name"])
             cond, rest = inner[0], inner[1:]
+            tconds, econds = conds, conds
             if ctxname and mentions(cond, ctxname):
                 m, pol = ctx_test(cond, ctxname)
-                walk(rest[0], conds + [(m, pol)], loop)
-                if len(rest) > 1:
-                    walk(rest[1], conds + [(m, not pol)], loop)
+                tconds, econds = conds + [(m, pol)], conds + [(m, not pol)]
             else:
-                for c in inner:
-                    walk(c, conds, loop)
+                walk(cond, conds, loop)
+            pre = st["held"]
+            t_held = e_held = pre
+            if calls_fn(cond, LOCK_TRY):
+                if k != "IfStmt":
+                    raise Unsupported("lock fast path inside ?: in " + fn["name"])
+                if try_polarity(cond, fn["name"]):
+                    t_held = True
+                else:
+                    e_held = True
+            st["held"] = t_held
+            walk(rest[0], tconds, loop)
+            t_end = st["held"]
+            st["held"] = e_held
+            if len(rest) > 1:
+                walk(rest[1], econds, loop)
+            e_end = st["held"]
+            st["held"] = t_end and e_end
             return
         if k in ("ForStmt", "WhileStmt", "DoStmt"):
             for c in inner:
@@ -174,14 +229,20 @@ def analyse(fn):
             return                      # `(void)context;`
         if k == "CallExpr":
             callee = refname(inner[0])
-            if callee and callee.startswith("thread_queue_"):
-                if callee in CALLS:
-                    sites.append((list(conds), CALLS[callee], loop))
-                else:
-                    guards.append(callee)
             for a in inner[1:]:
                 if ctxname and mentions(a, ctxname):
                     raise Unsupported("`%s` passed on to %s in %s" % (ctxname, callee, fn["name"]))
+                walk(a, conds, loop)
+            if callee and callee.startswith("thread_queue_"):
+                if callee in CALLS:
+                    sites.append((list(conds), CALLS[callee], loop, st["held"]))
+                else:
+                    guards.append(callee)
+            if callee in LOCK_ACQ:
+                st["held"] = True
+            elif callee in LOCK_REL:
+                st["held"] = False
+            return
         if k == "DeclRefExpr" and ctxname and n.get("referencedDecl", {}).get("name") == ctxname:
             raise Unsupported("use of `%s` outside a recognised test in %s" % (ctxname, fn["name"]))
         for c in inner:
@@ -292,13 +353,13 @@ def local_macros(cfile):
 
 
 def lean_site(s):
-    conds, call, loop = s
+    conds, call, loop = s[:3]
     cs = ", ".join("⟨%d, %s⟩" % (m, "true" if pol else "false") for m, pol in conds)
     return "⟨[%s], .%s, %s⟩" % (cs, call, "true" if loop else "false")
 
 
 def _generate():
-    entries, macros_all, problems = [], [], []
+    entries, macros_all, problems, unlocked = [], [], [], []
     nsites = 0
     for kind, fname, getdef_name in KINDS:
         path = os.path.join(C.SRC, "pool", fname)
@@ -321,13 +382,16 @@ def _generate():
                 if f not in cache:
                     cache[f] = analyse(fns[f])
                 sites, guards = cache[f]
-                for conds, _, _ in sites:
+                if any(not s[3] for s in sites) and (acc != "priv" or kind == "fifoWait" or slot in ("popWait", "popTimedwait")):
+                    unlocked.append([kind, acc, slot, f])
+                for conds, *_ in sites:
                     for m, _ in conds:
                         if macros and m not in macros.values():
                             problems.append("%s:%s tests mask %d which is none of the file's POOL_CONTEXT_* macros %s" % (fname, f, m, macros))
                 nsites += len(sites)
-                entries.append("  { kind := .%s, access := .%s, slot := .%s, fn := \"%s\",\n    sites := [%s],\n    guards := [%s] }" % (
-                    kind, acc, slot, f, ", ".join(lean_site(s) for s in sites), ", ".join('"%s"' % g for g in guards)))
+                entries.append("  { kind := .%s, access := .%s, slot := .%s, fn := \"%s\",\n    sites := [%s],\n    guards := [%s],\n    locked := [%s] }" % (
+                    kind, acc, slot, f, ", ".join(lean_site(s) for s in sites), ", ".join('"%s"' % g for g in guards),
+                    ", ".join("true" if s[3] else "false" for s in sites)))
     if problems:
         raise Unsupported("; ".join(sorted(set(problems))))
     lines = ["/- GENERATED by tools/poolgen.py from /repo/src/pool/{fifo,fifo_wait,randws}.c (clang-14 AST) on every check run.",
@@ -340,7 +404,7 @@ def _generate():
         lines.append("def %s : Nat := %d" % (k, v))
     lines += ["", "def table : List Entry := [", ",\n".join(entries), "]", "", "end ArgoVerif.Gen.PoolEnds", ""]
     changed = C.write_if_changed(os.path.join(C.LEAN, "ArgoVerif", "Gen", "PoolEnds.lean"), "\n".join(lines))
-    return {"entries": len(entries), "sites": nsites, "macros": dict(macros_all), "changed": changed}
+    return {"entries": len(entries), "sites": nsites, "macros": dict(macros_all), "changed": changed, "unlocked_shared": unlocked}
 
 
 def generate():
